@@ -398,6 +398,11 @@ def _sp_post(ctx):
     sig = ("split", width, rate, style, flag if not isinstance(flag, str) else "name", nopart, len(entries), len(doc["tiers"]))
     mech = {"op": "split", "exc": type(ctx.exc).__name__ if ctx.exc else None, "flag": bool(flag)}
     REC.outcome(mon, ctx.exc)
+    if ctx.exc is not None and core.is_praatio_error(ctx.exc) and style in ("label", "append_no_i") and len({x[2] for x in entries}) != len(entries):
+        # two entries with one label under a naming scheme that has no number in it: "one file per entry" cannot be had - the pinned tree
+        # lets the later file replace the earlier one, a library that refuses instead is not judged
+        REC.skip(mon, "duplicate-labels-under-a-label-only-name-style-refused")
+        return
     if ctx.exc is not None:
         REC.violation(PROP, mon, "splitAudioOnTier", case, "raised %s: %s" % (type(ctx.exc).__name__, ctx.exc), sig, mech)
         return
